@@ -22,6 +22,10 @@
 #include <sys/prctl.h>
 #include <sys/socket.h>
 #include <sys/stat.h>
+#include <sys/time.h>
+#include <stdio_ext.h>
+#include <wchar.h>
+#include <locale.h>
 #include <pthread.h>
 #include <sys/resource.h>
 #include <sys/syscall.h>
@@ -239,7 +243,10 @@ static void digest_body(const char *tag) {
         for (int i = 0; i < nf; i++) { char l[64], t[512]; snprintf(l, sizeof l, "/proc/self/fd/%d", fds[i]); ssize_t r = readlink(l, t, sizeof t - 1); if (r < 0) r = 0; t[r] = 0;
             /* strip the work dir prefix and socket inode numbers so digests are comparable */
             char *q = t; if (!strncmp(t, W, strlen(W))) q = t + strlen(W); if (!strncmp(q, "socket:", 7)) q = "socket"; if (!strncmp(q, "pipe:", 5)) q = "pipe"; if (!strncmp(q, "/dev/pts/", 9)) q = "pts";
-            int fl = fcntl(fds[i], F_GETFD); out("%s\"%d:%s:%d\"", first ? "" : ",", fds[i], q, fl); first = 0; }
+            /* descriptor flags, status flags of the open file description (O_NONBLOCK, O_APPEND ... are shared with whoever else holds it) and, for the
+               caller's descriptors (the harness's own channels are >= 200), the file offset */
+            int fl = fcntl(fds[i], F_GETFD); int sfl = fcntl(fds[i], F_GETFL); long long off = fds[i] < 200 ? (long long)lseek(fds[i], 0, SEEK_CUR) : -2;
+            out("%s\"%d:%s:%d:%o:%lld\"", first ? "" : ",", fds[i], q, fl, sfl, off); first = 0; }
     } out("]");
     /* environment: pointer identity is process-local; content hash + count */
     { uint64_t h = vec_fnv(environ); out(",\"env\":\"%ld:%016llx:%d\"", vec_len(environ), (unsigned long long)h, environ != NULL); }
@@ -248,6 +255,13 @@ static void digest_body(const char *tag) {
     { sigset_t s; sigprocmask(SIG_SETMASK, NULL, &s); out(",\"sigmask\":\""); for (int i = 1; i < 65; i++) if (sigismember(&s, i) == 1) out("%d.", i); out("\""); }
     { sigset_t s; sigpending(&s); out(",\"sigpending\":\""); for (int i = 1; i < 65; i++) if (sigismember(&s, i) == 1) out("%d.", i); out("\""); }
     { out(",\"sigact\":\""); for (int i = 1; i < 65; i++) { struct sigaction sa; if (sigaction(i, NULL, &sa) == 0 && (sa.sa_handler != SIG_DFL || sa.sa_flags)) out("%d=%lx/%x.", i, (unsigned long)sa.sa_handler, sa.sa_flags); } out("\""); }
+    /* state libc / the kernel keep for the process: locale, process name, priority, resource limits, interval timer, alarm */
+    { char pn[32] = ""; prctl(PR_GET_NAME, pn, 0, 0, 0); struct itimerval itv; memset(&itv, 0, sizeof itv); getitimer(ITIMER_REAL, &itv);
+      out(",\"misc\":\"locale=%s;name=%s;nice=%d;itimer=%d", setlocale(LC_ALL, NULL), pn, getpriority(PRIO_PROCESS, 0), (itv.it_value.tv_sec || itv.it_value.tv_usec || itv.it_interval.tv_sec) ? 1 : 0);
+      static const int rls[] = { RLIMIT_NOFILE, RLIMIT_FSIZE, RLIMIT_STACK, RLIMIT_CORE, RLIMIT_AS, RLIMIT_NPROC, RLIMIT_CPU }; for (unsigned i = 0; i < sizeof rls / sizeof rls[0]; i++) { struct rlimit rl; getrlimit(rls[i], &rl); out(";rl%d=%llu/%llu", rls[i], (unsigned long long)rl.rlim_cur, (unsigned long long)rl.rlim_max); }
+      out("\""); }
+    /* stdio state of the caller's streams: orientation and buffering mode (settle in the warm-up calls when the library writes to them) */
+    out(",\"stdio\":\"%d/%d/%d;%d/%d/%d\"", fwide(stdout, 0), (int)__flbf(stdout) != 0, ferror(stdout) != 0, fwide(stderr, 0), (int)__flbf(stderr) != 0, ferror(stderr) != 0);
 #ifdef VERIF_HEAPTRACK
     out(",\"heap_live\":%ld,\"heap_bytes\":%ld", ht_live, ht_bytes);
 #endif
